@@ -344,7 +344,7 @@ pub fn case_roll(bytes: &[u8], _s: &[u8], ctx: &mut Ctx) -> Result<(), Fail> {
 
 // ---------------------------------------------------------------- non-finite samples: no panic, count, NaN-aware sum
 
-fn case_nonfinite(bytes: &[u8], _s: &[u8], ctx: &mut Ctx) -> Result<(), Fail> {
+pub fn case_nonfinite(bytes: &[u8], _s: &[u8], ctx: &mut Ctx) -> Result<(), Fail> {
     let mut src = Source::new(bytes);
     let vals: Vec<f64> = src.vec(20, |s| s.f64_interesting());
     ctx.case(&vals);
